@@ -312,19 +312,19 @@ Proof.
                | [] => Ok ""%string
                | _ :: _ => gs <- mapM (fun y => match (if k_gba k then alias_ref selects y else None) with
                                                 | Some a => Ok (fq (or_ostr (aq (kc k)) (q (kc k))) a)
-                                                | None => ritem kk srcs (sel_cx k wns ClGroupBy) y end) groupbys ;;
+                                                | None => ritem (mk_k (kc kk) (k_abs kk) true) srcs (sel_cx k wns ClGroupBy) y end) groupbys ;;
                            Ok (" GROUP BY " ++ join "," gs)%string end)
               = rmap (flat (q (kc k)))
                   (match groupbys with
                    | [] => Ok []
                    | _ :: _ => gs <- mapT (fun y => match (if k_gba k then alias_ref selects y else None) with
                                                     | Some a => Ok [KText (fq (or_ostr (aq (kc k)) (q (kc k))) a)]
-                                                    | None => itoks kk srcs (sel_cx k wns ClGroupBy) y end) groupbys ;;
+                                                    | None => itoks (mk_k (kc kk) (k_abs kk) true) srcs (sel_cx k wns ClGroupBy) y end) groupbys ;;
                                Ok (KText " GROUP BY " :: jtoks "," gs) end)).
   { destruct groupbys as [|g0 gr]; [reflexivity|].
     rewrite (mapM_mapT_all _ (fun y => match (if k_gba k then alias_ref selects y else None) with
                                        | Some a => Ok [KText (fq (or_ostr (aq (kc k)) (q (kc k))) a)]
-                                       | None => itoks kk srcs (sel_cx k wns ClGroupBy) y end) (flat (q (kc k)))).
+                                       | None => itoks (mk_k (kc kk) (k_abs kk) true) srcs (sel_cx k wns ClGroupBy) y end) (flat (q (kc k)))).
     - destruct (mapT _ (g0 :: gr)); cbn [bind rmap]; [|reflexivity]. f_equal; norm; reflexivity.
     - intros y. destruct (if k_gba k then alias_ref selects y else None).
       + cbn [rmap]. rewrite flat_one. reflexivity.
